@@ -256,9 +256,10 @@ class Contract:
     def __init__(self, module, qualname, *, params, prop, requires=(), ensures=None, raises=None,
                  unwind=None, invariants=None, modifies=None, assumes=(), level='top',
                  bound_args=None, kind='function', spec_globals=None, note='', recipes=None,
-                 max_paths=5000, result_spec=None, call_raises=None):
+                 max_paths=5000, result_spec=None, call_raises=None, name=None):
         self.module = module
         self.qualname = qualname
+        self.name = name or qualname     # identity of the contract (several contracts may describe one function)
         self.prop = prop
         self.params = params               # ordered dict name -> Spec
         self.requires = list(requires)     # expression strings
@@ -296,7 +297,7 @@ class Contract:
 
     @property
     def fid(self):
-        return f"{self.prop}.{self.qualname}"
+        return f"{self.prop}.{self.name}"
 
     def kind_combinations(self):
         names = list(self.params)
